@@ -492,9 +492,17 @@ fn parse_atom_latin1(input: &[u8]) -> NomResult<'_, OwnedTerm> {
         return Err(nom::Err::Failure(NomError::new(input, ErrorKind::TooLarge)));
     }
     let (input, bytes) = take(len as usize)(input)?;
-    let name = str::from_utf8(bytes)
-        .map_err(|_| nom::Err::Failure(NomError::new(input, ErrorKind::Char)))?;
-    Ok((input, OwnedTerm::Atom(Atom::new(name))))
+    Ok((input, OwnedTerm::Atom(Atom::new(latin1_to_str(bytes)))))
+}
+
+/// ATOM_EXT and SMALL_ATOM_EXT carry Latin-1 text: every byte is one code point.
+fn latin1_to_str(bytes: &[u8]) -> Cow<'_, str> {
+    if bytes.is_ascii() {
+        // ASCII is valid UTF-8, so this never fails
+        Cow::Borrowed(str::from_utf8(bytes).unwrap_or_default())
+    } else {
+        Cow::Owned(bytes.iter().map(|&b| b as char).collect())
+    }
 }
 
 fn parse_atom_utf8(input: &[u8]) -> NomResult<'_, OwnedTerm> {
@@ -525,9 +533,7 @@ fn parse_small_atom_latin1(input: &[u8]) -> NomResult<'_, OwnedTerm> {
         return Err(nom::Err::Failure(NomError::new(input, ErrorKind::TooLarge)));
     }
     let (input, bytes) = take(len as usize)(input)?;
-    let name = str::from_utf8(bytes)
-        .map_err(|_| nom::Err::Failure(NomError::new(input, ErrorKind::Char)))?;
-    Ok((input, OwnedTerm::Atom(Atom::new(name))))
+    Ok((input, OwnedTerm::Atom(Atom::new(latin1_to_str(bytes)))))
 }
 
 fn parse_dist_header_with_cache<'a>(
@@ -961,9 +967,7 @@ fn parse_atom_latin1_borrowed(input: &[u8]) -> NomResult<'_, BorrowedTerm<'_>> {
         return Err(nom::Err::Failure(NomError::new(input, ErrorKind::TooLarge)));
     }
     let (input, bytes) = take(len as usize)(input)?;
-    let name = str::from_utf8(bytes)
-        .map_err(|_| nom::Err::Failure(NomError::new(input, ErrorKind::Char)))?;
-    Ok((input, BorrowedTerm::Atom(Cow::Borrowed(name))))
+    Ok((input, BorrowedTerm::Atom(latin1_to_str(bytes))))
 }
 
 fn parse_atom_utf8_borrowed(input: &[u8]) -> NomResult<'_, BorrowedTerm<'_>> {
